@@ -334,6 +334,13 @@ def main(tier: str, selftest_cases: int = 0) -> int:
     work.merge(rep, par.run("props.c06", "affine_worker", [ch for ch in par.chunks(affine, 6)]))
     results = par.run("props.c06", "worker", tasks)
     work.merge(rep, results)
+    # over ALL named units of a dimension: if the factors the library applies admit no consistent
+    # sizes (c04's query), the verdict of < depends on the units the operands are written in --
+    # three quantities with a < b < c < a (c12's construction)
+    from props import c04, c12
+
+    c04.sizes_feasibility(rep, c04.named_coefficients(),
+                          emit=lambda r, d, n, core, cs: c12.order_cycle(r, d, n, core, cs, pid="C06"))
     rep.functions.update(["measured.Quantity.__add__", "measured.Quantity.__sub__",
                           "measured.Quantity.__mul__", "measured.Quantity.__truediv__",
                           "measured.Quantity.__pow__", "measured.Quantity.__eq__",
